@@ -32,7 +32,7 @@ def both(q1=320_000, t1=12_000_000, q2=96_000, t2=4_000_000):
 
 PLAN = {
     "C01": {"level": "exploration", "parts": both()},
-    "C03": {"level": "exploration", "parts": [l2(160_000, 6_000_000), sched(400_000, 20_000_000)]},
+    "C03": {"level": "exploration", "parts": [l2(160_000, 6_000_000), sched(400_000, 8_000_000)]},
     "C04": {"level": "exploration", "parts": both()},
     "C05": {"level": "exploration", "parts": both()},
     "C06": {"level": "exploration", "parts": both()},
@@ -41,17 +41,17 @@ PLAN = {
     "C09": {"level": "exploration", "parts": [l2(160_000, 6_000_000)]},
     "C10": {"level": "exploration", "parts": [l2(160_000, 6_000_000)]},
     "C11": {"level": "exploration", "parts": [l2(160_000, 6_000_000)]},
-    "C12": {"level": "exploration", "parts": [l2(160_000, 6_000_000), sched(400_000, 20_000_000)]},
+    "C12": {"level": "exploration", "parts": [l2(160_000, 6_000_000), sched(400_000, 8_000_000)]},
     "C13": {"level": "exploration", "parts": [l2(160_000, 6_000_000)]},
     "C14": {"level": "exploration", "parts": [l2(96_000, 3_000_000)]},
-    "C15": {"level": "exploration", "parts": [l2(160_000, 6_000_000), sched(400_000, 20_000_000)]},
-    "C17": {"level": "exploration", "parts": [sched(800_000, 40_000_000)]},
-    "C18": {"level": "exploration", "parts": [sched(800_000, 40_000_000)]},
-    "C20": {"level": "fault_enumeration", "parts": [poll(32_000, 1_600_000)]},
+    "C15": {"level": "exploration", "parts": [l2(160_000, 6_000_000), sched(400_000, 8_000_000)]},
+    "C17": {"level": "exploration", "parts": [sched(800_000, 16_000_000)]},
+    "C18": {"level": "exploration", "parts": [sched(800_000, 16_000_000)]},
+    "C20": {"level": "fault_enumeration", "parts": [poll(64_000, 1_600_000)]},
     "C19": {"level": "exploration", "parts": [dict(ws="real", bin="simreal", engine="diff", quick=160_000, thorough=6_000_000)], "reject": True},
     "C16": {
         "level": "exploration",
-        "parts": [l1(64 * 3456, 2000 * 3456), l2(100_000, 4_000_000), sched(300_000, 15_000_000)],
+        "parts": [l1(64 * 3456, 2000 * 3456), l2(100_000, 4_000_000), sched(300_000, 6_000_000)],
         "coverage_extra": lambda agg: {
             "configurations_enumerated": len(agg.get("l1", {}).get("states", [])),
             "configuration_product": 3456,
